@@ -57,6 +57,7 @@ def make_machine(col, pp, profile, monitor):
         def init_world(self, data):
             subs = data.draw(basic.substance_pool(cfg, max_extra=profile.get('max_extra_subs', 2)), label='subs')
             self.world = bench.World(pp, subs=subs)
+            self.world.dup_wells = profile.get('dup_wells', False)
             col.label('histories')
             monitor.start(self.world)
             # a starting stock so that early steps have something to act on
